@@ -99,3 +99,29 @@ Proof.
   - intros H. inversion H. left. split; auto. intros A. apply attrs_ok_rule in A. congruence.
 Qed.
 
+
+(* the settings a create / open_or_create writes never contain a zero container capacity: DynamicConfig::init
+   cannot hit its fatal_panic (every capacity field is an adjusted field) *)
+Fixpoint mask_le (c m : list bool) : Prop :=
+  match c, m with
+  | [], _ => True
+  | cb :: c', mb :: m' => (cb = true -> mb = true) /\ mask_le c' m'
+  | _ :: _, [] => False
+  end.
+
+Lemma any_zero_eff cap : forall mask defs rq, mask_le cap mask -> any_zero cap (eff_vals true mask defs rq) = false.
+Proof.
+  induction cap as [|cb cap IH]; intros mask defs rq H; [reflexivity|].
+  destruct mask as [|mb mask]; [contradiction|]. destruct H as [H1 H2].
+  destruct defs as [|d defs]; [reflexivity|]. destruct rq as [|r rq]; [reflexivity|].
+  cbn [eff_vals any_zero]. rewrite (IH _ _ _ H2), Bool.orb_false_r.
+  destruct cb; [|reflexivity]. rewrite (H1 eq_refl). cbn [andb].
+  destruct r as [x|]; [destruct (x =? 0) eqn:E|destruct (d =? 0) eqn:E]; auto.
+Qed.
+
+Theorem created_settings_never_panic defs r k : k <> KOpen -> init_panics (mk_cfg defs r k) = false.
+Proof.
+  intros Hk. unfold init_panics, mk_cfg; cbn [c_pat c_vals].
+  assert (does_adjust (r_pat r) (r_sized r) k = true) as -> by (destruct k; auto; congruence).
+  apply any_zero_eff. destruct (r_pat r); cbn; intuition congruence.
+Qed.
